@@ -241,6 +241,14 @@ def option_default_rule(A: Analysis, col: Collector, rule: str):
     """SlurmWorker.run: for job-name / output / error the default is appended only where
     the user's option was not found."""
     fn = A.func("pydra.workers.slurm.SlurmWorker.run")
+    # the option handling may have been extracted into another method of the worker: analyse the method that
+    # holds the option searches
+    if fn.cls is not None:
+        def _n_searches(f_):
+            return sum(1 for s_ in walk_own(f_.node) if isinstance(s_, ast.Assign) and isinstance(s_.value, ast.Call) and dotted(s_.value.func) == "re.search" and s_.value.args and isinstance(s_.value.args[0], ast.Constant) and "sbatch_args" in norm(s_.value.args[1] if len(s_.value.args) > 1 else s_.value))
+        best = max(fn.cls.methods.values(), key=_n_searches)
+        if _n_searches(best) >= 3 and _n_searches(fn) < 3:
+            fn = best
     col.scope(fn.qualname)
     cfg = A.cfg(fn)
     n = 0
@@ -316,10 +324,10 @@ def status_table_rule(A: Analysis, col: Collector, rule: str):
     polled = {n.targets[0].id for n in walk_own(run.node) if isinstance(n, ast.Assign) and isinstance(n.targets[0], ast.Name) and "_poll_job" in norm(n.value)}
     requeue_in_run = str_lists(run, lambda n: isinstance(n.left, ast.Name) and n.left.id in polled)
     returned = []
-    for n, vals in str_lists(ver, lambda n: "status" in norm(n.left)):
+    for n, vals in str_lists(ver, lambda n: "status" in norm(A.expand(n.left, ver))):
         for p in parents(n):
             if isinstance(p, ast.If) and p.test is n or (isinstance(p, ast.If) and is_within(n, p.test)):
-                if p.body and isinstance(p.body[0], ast.Return) and "status" in norm(p.body[0].value):
+                if p.body and isinstance(p.body[0], ast.Return) and "status" in norm(A.expand(p.body[0].value, ver)):
                     returned.append((n, vals))
                 break
     if not requeue_in_run or not returned:
@@ -351,7 +359,7 @@ def status_table_rule(A: Analysis, col: Collector, rule: str):
     else:
         col.fail(rule, ver.qualname, "failure-test", "_verify_exit_code no longer fails a job on (exit code != 0 or status != COMPLETED)", A.loc(ver.node))
     # pending / running keep polling
-    pend = [vals for n, vals in str_lists(ver, lambda n: "status" in norm(n.left)) if {"RUNNING", "PENDING"} <= vals]
+    pend = [vals for n, vals in str_lists(ver, lambda n: "status" in norm(A.expand(n.left, ver))) if {"RUNNING", "PENDING"} <= vals]
     if pend:
         col.ok(rule, "RUNNING / PENDING keep the job polling (return False)", A.loc(ver.node))
     else:
